@@ -9,7 +9,6 @@ Request.run, current_runtime), plus the property's own oracle: an independent Py
     implementation  vs  Python stack oracle         -> violations
     Python stack oracle vs Gallina stack spec       -> correspondence_mismatches (oracle == theorem's spec)
 """
-import itertools
 import multiprocessing
 import os
 import threading
